@@ -833,7 +833,17 @@ def r9(prog, ctx, tag="R9", positions=(0, 1, 2)):
             fname = by_tail[tail]
             persisted = False
             for pth, _env in pes:
-                env = taint.run(pth, dict(sources, **{src(elem): {"elem"}}))
+                # the returned expression and what it is a plain alias of on this path (x = y / a, b = c, d before the return)
+                aliases = {src(elem)}
+                for st_ in reversed(pth.stmts()):
+                    if isinstance(st_, ast.Assign) and len(st_.targets) == 1:
+                        tg_, vl_ = st_.targets[0], st_.value
+                        pairs_ = list(zip(tg_.elts, vl_.elts)) if isinstance(tg_, ast.Tuple) and isinstance(vl_, ast.Tuple) \
+                            and len(tg_.elts) == len(vl_.elts) else [(tg_, vl_)]
+                        for t_, v_ in pairs_:
+                            if src(t_) in aliases and isinstance(v_, (ast.Name, ast.Attribute)):
+                                aliases.add(src(v_))
+                env = taint.run(pth, dict(sources, **{a_: {"elem"} for a_ in aliases}))
                 shared = None
                 for st in pth.stmts():
                     for c in (x for x in walk_no_nested(st) if isinstance(x, ast.Call) and isinstance(x.func, ast.Attribute)):
@@ -843,16 +853,26 @@ def r9(prog, ctx, tag="R9", positions=(0, 1, 2)):
                             arg_l |= taint.influence(a, env)
                         both = recv_l | arg_l
                         if c.func.attr in ("write", "dump", "dump_to", "save") and "file:" + tail in both and \
-                                ("elem" in both or src(c.func.value) == src(elem)):
+                                ("elem" in both or src(c.func.value) in aliases):
                             persisted = True
                         if "file:" + tail in recv_l and c.func.attr.startswith("add_") and c.args:
                             shared = {x for a in c.args for x in taint.names_in(a)}
                             # the same loop body feeds the returned element from the same variable
                             blk = enclosing_stmt(c)._parent
                             for c2 in (x for s2 in getattr(blk, "body", []) for x in walk_no_nested(s2) if isinstance(x, ast.Call)):
-                                if isinstance(c2.func, ast.Attribute) and src(c2.func.value) == src(elem) and c2.func.attr in taint.MUTATORS \
+                                if isinstance(c2.func, ast.Attribute) and src(c2.func.value) in aliases and c2.func.attr in taint.MUTATORS \
                                         and shared & {x for a in c2.args for x in taint.names_in(a)}:
                                     persisted = True
+            if not persisted:
+                # the element is the result of a project function that was not expanded here: what that function writes is not visible
+                root = src(elem).split(".")[0].split("[")[0]
+                opaque = [st for st in walk_no_nested(f) if isinstance(st, ast.Assign) and isinstance(st.value, ast.Call)
+                          and isinstance(st.value.func, ast.Name) and prog.try_func(DSP, st.value.func.id) is not None
+                          and any(isinstance(x, ast.Name) and x.id == root for t in st.targets for x in ast.walk(t))]
+                if opaque:
+                    ctx.undecided(tag, opaque[0], f._qualname, "element %d (%s) is produced by %s(...), which this rule does not look into"
+                                  % (pos, what, opaque[0].value.func.id))
+                    continue
             if persisted:
                 ctx.ok(tag, "%s:%d" % (DSP, node.lineno), "normal path: element %d (%s) is written to %s" % (pos, what, fname))
             else:
